@@ -15,7 +15,7 @@ static const std::vector<std::string> ALPHA = {
     "setoption name Hash value 1", "setoption name Threads value 2", "setoption name MultiPV value 2", "setoption name Clear Hash",
     "setoption name Ponder value true", "setoption name Strength value 0", "setoption name Hash value 0", "setoption name Foo value 1",
     "position startpos", "position startpos moves e2e4 e7e5", "position fen 7k/5Q2/6K1/8/8/8/8/8 b - - 0 1", "position fen 7k/8/6KQ/8/8/8/8/8 b - - 0 1", "position fen 8/8/8/8 w",
-    "go depth 1", "go nodes 1", "go movetime 1", "go wtime 10 btime 10", "go mate 1", "go infinite", "go ponder wtime 100 btime 100", "go depth 1 searchmoves e2e4", "go",
+    "go depth 1", "go nodes 1", "go movetime 1", "go wtime 10 btime 10", "go mate 1", "go infinite", "go ponder wtime 100 btime 100", "go depth 1 searchmoves e2e4", "go searchmoves e2e4 d2d4 nodes 1", "go",
     "stop", "ponderhit", "quit", "xyzzy", "",
 };
 static const std::vector<std::string> GARBAGE = {
@@ -58,7 +58,6 @@ static void runSeq(const std::vector<std::string>& cmds, bool patient, const std
     std::string sstr; for (auto& l : script) { if (!sstr.empty()) sstr += " | "; sstr += l; }
     W->crumb(sstr);
     ses::Transcript t = ses::runSession(script, 60);
-    if (t.timedOut) { t = ses::runSession(script, 600); R.count("reruns_after_timeout"); }
     ses::Analysis a = ses::analyse(t, true);
     R.count("states"); R.count("transitions", (long long)t.lines.size());
     bool hasGo = false; for (auto& c : cmds) if (c.rfind("go", 0) == 0) hasGo = true;
